@@ -374,6 +374,10 @@ theorem C11_nd_checked_access_is_map (a : RArr) (cs : List Int) : a.at? cs = a.e
 /-- `size_all()` is the number of entries of the map, i.e. of the elements `begin_all()` … `end_all()` visits -/
 theorem C11_nd_size_all (a : RArr) : a.elems.length = a.sizeAll := RArr.elems_length a
 
+/-- the map is a function: no coordinate occurs twice among the elements `begin_all()` … `end_all()` visits, for every depth and
+    shape — together with `C11_nd_checked_access_is_map`: the checked access returns THE element at that coordinate -/
+theorem C11_nd_coordinates_unique (a : RArr) : (a.elems.map (·.1)).Nodup := RArr.elems_keys_nodup a
+
 /-- non-vacuity: an irregular 2-D array (row 5 has indices -1..1, row 6 is empty, row 7 has index 3 only) -/
 example : (RArr.node 5 [.leaf (-1) [10, 11, 12], .leaf 0 [], .leaf 3 [13]]).elems
     = [([5, -1], 10), ([5, 0], 11), ([5, 1], 12), ([7, 3], 13)] := by decide
